@@ -98,7 +98,7 @@ for _n in ["neo_hooke", "mooney_rivlin", "yeoh", "third_order_deformation", "ext
     if _n in ("extended_tube", "storakers"):
         _f["reg"] = 1e-4  # jax eigenvalue regularisation diag(0, +-1e-4)
     reg("jax:" + _n, "jax", _p, energy=True, fun=_n, **_f)
-reg("jax:morph", "jax", st.fixed_dictionaries({"scale": fl(0.8, 1.2)}), fun="morph", nstate=13, hyper=False, tol_fd=2e-5)
+reg("jax:morph", "jax", st.fixed_dictionaries({"scale": fl(0.8, 1.2)}), fun="morph", nstate=13, hyper=False, tol_fd=2e-5, reg=1e-4)
 reg("jax:morph_representative_directions", "jax", st.fixed_dictionaries({"scale": fl(0.8, 1.2)}), fun="morph_representative_directions",
     nstate=84, hyper=False, iso=False, micro=True, tol_fd=2e-5)
 reg("jax:total_lagrange(neo_hooke)", "jax", st.fixed_dictionaries({"mu": fl(0.2, 5)}), fun="total_lagrange")
